@@ -222,14 +222,19 @@ def gen_cases(tier, seed):
                 if r.random() < 0.7:
                     toks.append("L:%d:%d" % (k, slot))
         ops = []
+        valid = set()
         for _ in range(r.randint(2, 6)):
             x = r.random()
             nmx = r.choice(names)
             if x < 0.35:
-                ops.append("S:%s:%d:%d:%d" % (hx(nmx), r.choice(ks), r.randint(0, 2), r.choice([0, 0, 1000, TTL_MS + 5000])))
+                age = r.choice([0, 0, 1000, TTL_MS + 5000])
+                ops.append("S:%s:%d:%d:%d" % (hx(nmx), r.choice(ks), r.randint(0, 2), age))
+                (valid.add if age < TTL_MS else valid.discard)(nmx)
             elif x < 0.5:
                 ops.append("R:@%d:%d" % (r.choice(ks + [6]), r.randint(0, 2)))
-            else:
+            elif nmx in valid or (i % 8 == 0 and not any(o.startswith("R:") and o[2] != "@" and unhx(o.split(":")[1]) not in valid for o in ops)):
+                # (a name that cannot be resolved makes the server drop the stream without a SYNACK and the client
+                #  wait for its SYNACK timeout: at most one such request per case, in few cases)
                 ops.append("R:%s:%d" % (hx(nmx), r.randint(0, 2)))
         dial(toks + ops, "dial-history")
     return cs
